@@ -247,3 +247,468 @@ Proof.
       with (sin b * (x * cos a + y * sin a) - cos b * (y * cos a - x * sin a)) by ring.
     exact H2.
 Qed.
+
+(** ** Parallelepiped, AS BUILT, for alpha = 0 (where build() agrees with the
+    documented solid; for alpha <> 0 see [ppiped_alpha_refuted]) *)
+Lemma pos_mul_lt0 k A : 0 < k -> (k * A < 0 <-> A < 0).
+Proof. intros Hk. split; intros Hx; nra. Qed.
+Lemma pos_mul_gt0 k A : 0 < k -> (0 < k * A <-> 0 < A).
+Proof. intros Hk. split; intros Hx; nra. Qed.
+Lemma pos_mul_ne0 k A : 0 < k -> (k * A <> 0 <-> A <> 0).
+Proof. intros Hk. split; intros Hx Hy; apply Hx; nra. Qed.
+
+Lemma inv_norm_pos (v : vec3 R) : 0 < dot v v -> 0 < 1 / norm v.
+Proof.
+  intros Hd. unfold norm. numR. apply Rdiv_lt_0_compat; [lra|]. now apply sqrt_lt_R0.
+Qed.
+
+(** the signed distance to a plane through point q with unnormalised normal v,
+    as computed by build (unit normal, offset = dot(q, unit normal)) *)
+Lemma plane_unit_value (v q p : vec3 R) (sgn : R) :
+  surf_f (SPlane (make_unit_vector v) (sgn * dot q (make_unit_vector v))) p
+  = (1 / norm v) * ((vx v * vx p + vy v * vy p + vz v * vz p)
+                    - sgn * (vx v * vx q + vy v * vy q + vz v * vz q)).
+Proof.
+  unfold surf_f, make_unit_vector. cbv zeta. cbn [vx vy vz]. unfold dot. cbn [vx vy vz]. numR.
+  set (k := 1 / norm v). clearbody k. ring.
+Qed.
+
+Lemma plane_unit_value_pos (v q p : vec3 R) :
+  surf_f (SPlane (make_unit_vector v) (dot q (make_unit_vector v))) p
+  = (1 / norm v) * ((vx v * vx p + vy v * vy p + vz v * vz p) - (vx v * vx q + vy v * vy q + vz v * vz q)).
+Proof. rewrite <- (Rmult_1_l (dot q _)). rewrite plane_unit_value. ring. Qed.
+Lemma plane_unit_value_neg (v q p : vec3 R) :
+  surf_f (SPlane (make_unit_vector v) (- dot q (make_unit_vector v))) p
+  = (1 / norm v) * ((vx v * vx p + vy v * vy p + vz v * vz p) + (vx v * vx q + vy v * vy q + vz v * vz q)).
+Proof.
+  replace (- dot q (make_unit_vector v)) with ((-1) * dot q (make_unit_vector v)) by ring.
+  rewrite plane_unit_value. ring.
+Qed.
+
+Ltac grab_norm k Hk :=
+  match goal with
+  | |- context [1 / norm ?v] =>
+      assert (Hk : 0 < 1 / norm v);
+      [ apply inv_norm_pos; unfold cross, dot; cbn [vx vy vz]; numR | set (k := 1 / norm v) in *; clearbody k ]
+  end.
+
+Theorem ppiped_surfaces_iff_inside_alpha0 hx hy hz sinth costh sinphi cosphi p :
+  0 < hx -> 0 < hy -> 0 < hz -> 0 < costh ->
+  on_any (ppiped_surfaces_sc hx hy hz 0 1 sinth costh sinphi cosphi) p = false ->
+  (all_hold (ppiped_surfaces_sc hx hy hz 0 1 sinth costh sinphi cosphi) p = true
+   <-> inside_ppiped_sc hx hy hz 0 1 sinth costh sinphi cosphi p = true).
+Proof.
+  destruct p as [x y z]. intros Hx Hy Hz Hc.
+  unfold ppiped_surfaces_sc, ppiped_vectors, inside_ppiped_sc, planeZ. intros Hon.
+  senses_in Hon. senses.
+  rewrite !plane_unit_value_pos, !plane_unit_value_neg in *.
+  grab_norm k1 Hk1.
+  { assert (0 < (hx * hz * costh) * (hx * hz * costh)) by (repeat apply Rmult_lt_0_compat; lra). nra. }
+  grab_norm k2 Hk2.
+  { assert (0 < (hy * hz * costh) * (hy * hz * costh)) by (repeat apply Rmult_lt_0_compat; lra). nra. }
+  rewrite !pos_mul_lt0, !pos_mul_gt0 by assumption.
+  repeat rewrite pos_mul_ne0 in Hon by assumption.
+  unfold cross in *. cbn [vx vy vz] in *. unfold surf_f in *. vsimp. bools.
+  assert (Ht : sinth = (sinth / costh) * costh) by (field; lra).
+  set (t := sinth / costh) in *. clearbody t. subst sinth.
+  assert (P1 : 0 < hx * hz * costh) by (repeat apply Rmult_lt_0_compat; lra).
+  assert (P2 : 0 < hy * hz * costh) by (repeat apply Rmult_lt_0_compat; lra).
+  set (Y := y - z * t * sinphi). set (X := x - z * t * cosphi - Y * (0 / 1)).
+  destruct Hon as (Hz1 & Hz2 & Hy1 & Hy2 & Hx1 & Hx2 & _).
+  match type of Hy1 with ?e <> 0 => replace e with (hx * hz * costh * (Y + hy)) in * by (unfold Y; ring) end.
+  match type of Hy2 with ?e <> 0 => replace e with (hx * hz * costh * (Y - hy)) in * by (unfold Y; ring) end.
+  match type of Hx1 with ?e <> 0 => replace e with (hy * hz * costh * (X + hx)) in * by (unfold X, Y; field) end.
+  match type of Hx2 with ?e <> 0 => replace e with (hy * hz * costh * (X - hx)) in * by (unfold X, Y; field) end.
+  rewrite pos_mul_ne0 in Hy1, Hy2, Hx1, Hx2 by assumption.
+  rewrite !pos_mul_lt0, !pos_mul_gt0 by assumption.
+  lra.
+Qed.
+
+Ltac senses_hyp H :=
+  repeat first [ rewrite all_hold_cons in H | rewrite all_hold_nil in H
+               | rewrite sense_in_iff in H | rewrite sense_out_iff in H ].
+
+(** *** the documented Parallelepiped is NOT what build() emits when alpha <> 0:
+    with sin(alpha) = 3/5, cos(alpha) = 4/5, unit half-lengths, theta = 0, the
+    point (0, 9/10, 0) belongs to the documented solid (|y| <= dy = 1) but is
+    rejected by the built y faces (at +-hy cos(alpha) = +-4/5). *)
+Theorem ppiped_alpha_refuted :
+  exists hx hy hz sinal cosal p,
+    0 < hx /\ 0 < hy /\ 0 < hz /\ 0 < cosal /\ sinal * sinal + cosal * cosal = 1 /\
+    on_any (ppiped_surfaces_sc hx hy hz sinal cosal 0 1 0 1) p = false /\
+    inside_ppiped_sc hx hy hz sinal cosal 0 1 0 1 p = true /\
+    all_hold (ppiped_surfaces_sc hx hy hz sinal cosal 0 1 0 1) p = false.
+Proof.
+  exists 1, 1, 1, (3 / 5), (4 / 5), (V3 0 (9 / 10) 0).
+  repeat split; try lra.
+  - unfold ppiped_surfaces_sc, ppiped_vectors, planeZ. senses.
+    rewrite !plane_unit_value_pos, !plane_unit_value_neg.
+    grab_norm k1 Hk1; [lra|]. grab_norm k2 Hk2; [lra|].
+    rewrite !pos_mul_ne0 by assumption.
+    unfold cross. cbn [vx vy vz]. unfold surf_f. vsimp. repeat split; lra.
+  - unfold inside_ppiped_sc. bools. cbn [vx vy vz]. numR. repeat split; lra.
+  - apply not_true_is_false. intros E.
+    unfold ppiped_surfaces_sc, ppiped_vectors, planeZ in E. senses_hyp E.
+    rewrite !plane_unit_value_pos, !plane_unit_value_neg in E.
+    destruct E as (_ & _ & _ & E & _).
+    revert E. grab_norm k1 Hk1; [lra|]. intros E.
+    rewrite pos_mul_lt0 in E by assumption.
+    unfold cross in E. cbn [vx vy vz] in E. numR. lra.
+Qed.
+
+(** the (3/5, 4/5) pair is the sine/cosine of a valid shear angle alpha in (0, 1/4) turn,
+    so the refutation applies to [surfaces_of (PPpiped ..)] / [inside_prim] themselves *)
+Lemma angle_345 : exists alpha, 0 < alpha < / 4 /\ sin_turn alpha = 3 / 5 /\ cos_turn alpha = 4 / 5.
+Proof.
+  exists (atan (3 / 4) / (2 * PI)).
+  pose proof PI_RGT_0 as Hpi.
+  assert (Hs : sqrt (1 + (3 / 4)²) = 5 / 4).
+  { replace (1 + (3 / 4)²) with ((5 / 4) * (5 / 4)) by (unfold Rsqr; field). apply sqrt_square. lra. }
+  assert (Ha : 2 * PI * (atan (3 / 4) / (2 * PI)) = atan (3 / 4)) by (field; lra).
+  repeat split.
+  - apply Rdiv_lt_0_compat; [|lra]. rewrite <- atan_0. apply atan_increasing. lra.
+  - pose proof (atan_bound (3 / 4)) as [_ Hb].
+    apply Rmult_lt_reg_r with (2 * PI); [lra|]. unfold Rdiv at 1. rewrite Rmult_assoc, Rinv_l by lra. lra.
+  - unfold sin_turn. rewrite npi_PI. numR. rewrite Ha, sin_atan, Hs. field.
+  - unfold cos_turn. rewrite npi_PI. numR. rewrite Ha, cos_atan, Hs. field.
+Qed.
+
+Theorem ppiped_alpha_refuted_turns :
+  exists hx hy hz alpha theta phi p,
+    0 < hx /\ 0 < hy /\ 0 < hz /\ - / 4 < alpha < / 4 /\ 0 <= theta < / 4 /\ 0 <= phi < 1 /\
+    on_any (surfaces_of 0 (PPpiped hx hy hz alpha theta phi)) p = false /\
+    inside_prim (PPpiped hx hy hz alpha theta phi) p = true /\
+    all_hold (surfaces_of 0 (PPpiped hx hy hz alpha theta phi)) p = false.
+Proof.
+  destruct angle_345 as (alpha & Hal & Hs & Hc).
+  destruct ppiped_alpha_refuted as (hx & hy & hz & sa & ca & p & H).
+  (* re-run with the concrete witness to keep the same numbers *)
+  clear H. exists 1, 1, 1, alpha, 0, 0, (V3 0 (9 / 10) 0).
+  assert (S0 : sin_turn (T:=R) 0 = 0) by (unfold sin_turn; numR; rewrite Rmult_0_r; apply sin_0).
+  assert (C0 : cos_turn (T:=R) 0 = 1) by (unfold cos_turn; numR; rewrite Rmult_0_r; apply cos_0).
+  cbn [surfaces_of inside_prim]. unfold ppiped_surfaces, inside_ppiped. rewrite Hs, Hc, S0, C0.
+  repeat split; try lra.
+  - unfold ppiped_surfaces_sc, ppiped_vectors, planeZ. senses.
+    rewrite !plane_unit_value_pos, !plane_unit_value_neg.
+    grab_norm k1 Hk1; [lra|]. grab_norm k2 Hk2; [lra|].
+    rewrite !pos_mul_ne0 by assumption.
+    unfold cross. cbn [vx vy vz]. unfold surf_f. vsimp. repeat split; lra.
+  - unfold inside_ppiped_sc. bools. cbn [vx vy vz]. numR. repeat split; lra.
+  - apply not_true_is_false. intros E.
+    unfold ppiped_surfaces_sc, ppiped_vectors, planeZ in E. senses_hyp E.
+    rewrite !plane_unit_value_pos, !plane_unit_value_neg in E.
+    destruct E as (_ & _ & _ & E & _).
+    revert E. grab_norm k1 Hk1; [lra|]. intros E.
+    rewrite pos_mul_lt0 in E by assumption.
+    unfold cross in E. cbn [vx vy vz] in E. numR. lra.
+Qed.
+
+(** ** bounding boxes declared by build(): soundness where it holds, refutations where not *)
+Definition bbox_ext_sound (pr : prim R) : Prop :=
+  forall i e p, declared_bboxes pr = Some (i, Some e) -> inside_prim pr p = true -> in_bbox e p = true.
+Definition bbox_int_sound (pr : prim R) : Prop :=
+  forall i e p, declared_bboxes pr = Some (Some i, e) -> in_bbox i p = true -> inside_prim pr p = true.
+
+Lemma in_bbox_sym hx hy hz (p : vec3 R) :
+  in_bbox (sym_bbox hx hy hz) p = true <->
+  - hx <= vx p <= hx /\ - hy <= vy p <= hy /\ - hz <= vz p <= hz.
+Proof. unfold in_bbox, sym_bbox. cbn [fst snd vx vy vz]. numR. bools. tauto. Qed.
+
+Lemma sqrt_sq_nonneg r : 0 <= r -> sqrt (r * r) = r.
+Proof. apply sqrt_square. Qed.
+
+Theorem box_bbox_sound hx hy hz : bbox_ext_sound (PBox hx hy hz) /\ bbox_int_sound (PBox hx hy hz).
+Proof.
+  split; intros i e [x y z] Hd; cbn [declared_bboxes] in Hd; inversion Hd; subst;
+    rewrite in_bbox_sym; cbn [inside_prim]; unfold inside_box; bools; cbn [vx vy vz]; tauto.
+Qed.
+
+Theorem sphere_bbox_ext_sound r : 0 <= r -> bbox_ext_sound (PSphere r).
+Proof.
+  intros Hr i e [x y z] Hd. cbn [declared_bboxes] in Hd. inversion Hd; subst. clear Hd.
+  rewrite in_bbox_sym. cbn [inside_prim vx vy vz]. unfold inside_sphere. numR. bools. cbn [vx vy vz].
+  rewrite sqrt_sq_nonneg by exact Hr. intros Hin. repeat split; nra.
+Qed.
+
+Theorem cyl_bbox_sound r hh : 0 <= r -> bbox_ext_sound (PCyl r hh) /\ bbox_int_sound (PCyl r hh).
+Proof.
+  intros Hr. split; intros i e [x y z] Hd; cbn [declared_bboxes] in Hd; inversion Hd; subst; clear Hd;
+    rewrite in_bbox_sym; cbn [inside_prim vx vy vz]; unfold inside_cyl; numR; bools; cbn [vx vy vz];
+    rewrite sqrt_sq_nonneg by exact Hr.
+  - intros [Hin Hz]. repeat split; nra.
+  - unfold sqrt_half. numR.
+    assert (H2 : sqrt 2 * sqrt 2 = 2) by (apply sqrt_sqrt; lra).
+    assert (H2p : 0 <= sqrt 2) by apply sqrt_pos.
+    set (k := sqrt 2 / 2 * r). assert (Hk : k * k = r * r / 2) by (unfold k; nra).
+    intros (Hx & Hy & Hz). split; [|lra].
+    assert (x * x <= k * k) by nra. assert (y * y <= k * k) by nra. nra.
+Qed.
+
+(** SurfaceClipper's [sqrt_third = sqrt_three / 2]: the "interior" cube of a
+    sphere sticks out of the sphere *)
+Theorem sphere_bbox_int_refuted : exists r, 0 < r /\ ~ bbox_int_sound (PSphere r).
+Proof.
+  exists 1. split; [lra|]. intros Hs.
+  specialize (Hs (sym_bbox (sqrt_third * sqrt (1 * 1)) (sqrt_third * sqrt (1 * 1)) (sqrt_third * sqrt (1 * 1)))
+                 (Some (sym_bbox (sqrt (1 * 1)) (sqrt (1 * 1)) (sqrt (1 * 1))))
+                 (V3 (4 / 5) (4 / 5) (4 / 5)) eq_refl).
+  assert (H3 : 8 / 5 <= sqrt 3).
+  { rewrite <- (sqrt_square (8 / 5)) by lra. apply sqrt_le_1; lra. }
+  assert (Hin : in_bbox (sym_bbox (sqrt_third * sqrt (1 * 1)) (sqrt_third * sqrt (1 * 1)) (sqrt_third * sqrt (1 * 1)))
+                        (V3 (4 / 5) (4 / 5) (4 / 5)) = true).
+  { rewrite in_bbox_sym. cbn [vx vy vz]. unfold sqrt_third. numR. rewrite Rmult_1_r, sqrt_1. lra. }
+  specialize (Hs Hin). cbn [inside_prim] in Hs. unfold inside_sphere in Hs. revert Hs. numR. bools.
+  cbn [vx vy vz]. lra.
+Qed.
+
+(** Parallelepiped::build declares the exterior box +-(a+b+c) with
+    c_z = hz cos(theta): a point of the solid (inside all six built planes AND
+    inside the documented solid) lies outside that box. *)
+Theorem ppiped_bbox_ext_refuted :
+  exists hx hy hz alpha theta phi p e,
+    0 < hx /\ 0 < hy /\ 0 < hz /\ - / 4 < alpha < / 4 /\ 0 <= theta < / 4 /\ 0 <= phi < 1 /\
+    all_hold (surfaces_of 0 (PPpiped hx hy hz alpha theta phi)) p = true /\
+    inside_prim (PPpiped hx hy hz alpha theta phi) p = true /\
+    declared_bboxes (PPpiped hx hy hz alpha theta phi) = Some (None, Some e) /\
+    in_bbox e p = false.
+Proof.
+  destruct angle_345 as (theta & Hth & Hs & Hc).
+  assert (S0 : sin_turn (T:=R) 0 = 0) by (unfold sin_turn; numR; rewrite Rmult_0_r; apply sin_0).
+  assert (C0 : cos_turn (T:=R) 0 = 1) by (unfold cos_turn; numR; rewrite Rmult_0_r; apply cos_0).
+  exists 1, 1, 1, 0, theta, 0, (V3 (27 / 40) 0 (9 / 10)).
+  eexists.
+  cbn [surfaces_of inside_prim declared_bboxes]. unfold ppiped_surfaces, inside_ppiped.
+  rewrite Hs, Hc, S0, C0.
+  split; [lra|]. split; [lra|]. split; [lra|]. split; [lra|]. split; [lra|]. split; [lra|].
+  split; [|split; [|split]].
+  - unfold ppiped_surfaces_sc, ppiped_vectors, planeZ. senses.
+    rewrite !plane_unit_value_pos, !plane_unit_value_neg.
+    grab_norm k1 Hk1; [lra|]. grab_norm k2 Hk2; [lra|].
+    rewrite !pos_mul_lt0, !pos_mul_gt0 by assumption.
+    unfold cross. cbn [vx vy vz]. unfold surf_f. vsimp. repeat split; lra.
+  - unfold inside_ppiped_sc. bools. cbn [vx vy vz]. numR. repeat split; lra.
+  - unfold ppiped_vectors. cbv zeta. reflexivity.
+  - unfold in_bbox. cbn [fst snd vx vy vz vadd]. numR. unfold nfmin, nfmax. numR.
+    destruct (Rltb_spec (1 * 0 + 1 * 0 + 1 * (4 / 5)) 1) as [_|Hbad]; [|lra].
+    apply not_true_is_false. bools. lra.
+Qed.
+
+(** ** GenPrism: each lateral face agrees with the interpolated polygon edge *)
+Definition cross2 (vi vj : R * R) (x y : R) : R :=
+  (fst vj - fst vi) * (y - snd vi) - (snd vj - snd vi) * (x - fst vi).
+
+(** twisted face: the quadric is exactly minus the 2-D cross product of the
+    interpolated edge with the point (so "inside" = left of the edge) *)
+Theorem twisted_face_value hz (li lj hi_ hj : R * R) x y z : hz <> 0 ->
+  let s := (z + hz) / (2 * hz) in
+  surf_f (twisted_quadric hz (V3 (fst li) (snd li) (- hz)) (V3 (fst lj) (snd lj) (- hz))
+                             (V3 (fst hj) (snd hj) hz) (V3 (fst hi_) (snd hi_) hz)) (V3 x y z)
+  = - cross2 (lerp_pt s li hi_) (lerp_pt s lj hj) x y.
+Proof.
+  intros Hz s. unfold twisted_quadric, cross2, lerp_pt, surf_f, s.
+  destruct li as [a1 a2], lj as [b1 b2], hi_ as [c1 c2], hj as [d1 d2].
+  cbn [fst snd vx vy vz]. vsimp. unfold n2. numR. field. exact Hz.
+Qed.
+
+(** planar face whose top edge is parallel to the bottom edge (hj - hi = lam (lj - li)):
+    the plane value times the positive edge-length ratio is -2 hz times the cross product *)
+Theorem planar_face_value hz (li lj hi_ hj : R * R) lam x y z : hz <> 0 ->
+  fst hj - fst hi_ = lam * (fst lj - fst li) -> snd hj - snd hi_ = lam * (snd lj - snd li) ->
+  let s := (z + hz) / (2 * hz) in
+  let ilo := V3 (fst li) (snd li) (- hz) in
+  let jlo := V3 (fst lj) (snd lj) (- hz) in
+  let ihi := V3 (fst hi_) (snd hi_) hz in
+  let N := cross (vsub jlo ilo) (vsub ihi ilo) in
+  ((vx N * x + vy N * y + vz N * z) - (vx N * vx ilo + vy N * vy ilo + vz N * vz ilo)) * (1 + s * (lam - 1))
+  = - (2 * hz) * cross2 (lerp_pt s li hi_) (lerp_pt s lj hj) x y.
+Proof.
+  intros Hz H1 H2 s ilo jlo ihi N. unfold N, ilo, jlo, ihi, cross, vsub, cross2, lerp_pt, s.
+  destruct li as [a1 a2], lj as [b1 b2], hi_ as [c1 c2], hj as [d1 d2].
+  cbn [fst snd vx vy vz] in *. numR.
+  assert (E1 : d1 = c1 + lam * (b1 - a1)) by lra. assert (E2 : d2 = c2 + lam * (b2 - a2)) by lra.
+  subst d1 d2. field. exact Hz.
+Qed.
+
+Lemma left_of_iff (vi vj : R * R) x y : left_of vi vj x y = true <-> 0 <= cross2 vi vj x y.
+Proof. unfold left_of, cross2. numR. now rewrite Rleb_true. Qed.
+
+(** a twisted face (whatever the four points): inside sense <-> strictly left of the interpolated edge *)
+Theorem genprism_twisted_face_iff hz (li lj hi_ hj : R * R) x y z : hz <> 0 ->
+  let s := (z + hz) / (2 * hz) in
+  let q := twisted_quadric hz (V3 (fst li) (snd li) (- hz)) (V3 (fst lj) (snd lj) (- hz))
+                              (V3 (fst hj) (snd hj) hz) (V3 (fst hi_) (snd hi_) hz) in
+  on_surface q (V3 x y z) = false ->
+  (sense_holds BIn q (V3 x y z) = true <-> left_of (lerp_pt s li hi_) (lerp_pt s lj hj) x y = true).
+Proof.
+  intros Hz s q Hoff. rewrite sense_in_iff, left_of_iff. rewrite on_surface_false in Hoff.
+  unfold q in *. rewrite (twisted_face_value hz li lj hi_ hj x y z Hz) in *. fold s in Hoff |- *. lra.
+Qed.
+
+(** a planar face with parallel bottom/top edges (ratio lam > 0), non-degenerate, -hz < z < hz *)
+Theorem genprism_planar_face_iff hz (li lj hi_ hj : R * R) lam x y z :
+  0 < hz -> 0 < lam -> - hz < z < hz ->
+  fst hj - fst hi_ = lam * (fst lj - fst li) -> snd hj - snd hi_ = lam * (snd lj - snd li) ->
+  let s := (z + hz) / (2 * hz) in
+  let ilo := V3 (fst li) (snd li) (- hz) in
+  let jlo := V3 (fst lj) (snd lj) (- hz) in
+  let ihi := V3 (fst hi_) (snd hi_) hz in
+  let N := cross (vsub jlo ilo) (vsub ihi ilo) in
+  0 < dot N N ->
+  let pl := plane_pt (make_unit_vector N) ilo in
+  on_surface pl (V3 x y z) = false ->
+  (sense_holds BIn pl (V3 x y z) = true <-> left_of (lerp_pt s li hi_) (lerp_pt s lj hj) x y = true).
+Proof.
+  intros Hz Hlam Hzz H1 H2 s ilo jlo ihi N HN pl Hoff.
+  rewrite sense_in_iff, left_of_iff. rewrite on_surface_false in Hoff.
+  unfold pl, plane_pt in *. 
+  replace (dot (make_unit_vector N) ilo) with (dot ilo (make_unit_vector N)) in * by (unfold dot; numR; ring).
+  rewrite plane_unit_value_pos in *.
+  pose proof (inv_norm_pos N HN) as Hk. set (k := 1 / norm N) in *. clearbody k.
+  rewrite pos_mul_lt0 by assumption. rewrite pos_mul_ne0 in Hoff by assumption.
+  pose proof (planar_face_value hz li lj hi_ hj lam x y z ltac:(lra) H1 H2) as Hv. cbv zeta in Hv.
+  fold s ilo jlo ihi N in Hv. cbn [vx vy vz] in *.
+  set (A := vx N * x + vy N * y + vz N * z - (vx N * vx ilo + vy N * vy ilo + vz N * vz ilo)) in *.
+  set (C := cross2 (lerp_pt s li hi_) (lerp_pt s lj hj) x y) in *.
+  assert (Hs : 0 < s < 1).
+  { unfold s. split.
+    - apply Rdiv_lt_0_compat; lra.
+    - apply Rmult_lt_reg_r with (2 * hz); [lra|]. unfold Rdiv. rewrite Rmult_assoc, Rinv_l by lra. lra. }
+  assert (Hp : 0 < 1 + s * (lam - 1)) by nra.
+  split; intros Hx.
+  - assert (A * (1 + s * (lam - 1)) < 0) by nra. nra.
+  - destruct (Rle_or_lt 0 A) as [HA|HA]; [|exact HA]. exfalso.
+    assert (0 <= A * (1 + s * (lam - 1))) by nra.
+    assert (C = 0) by nra. apply Hoff. nra.
+Qed.
+
+(** ** Prism: the n planes of build() are the n documented half-planes, cyclically shifted *)
+Section PrismProof.
+  Variables (n : nat) (orient x y : R).
+  Hypothesis Hn : (0 < n)%nat.
+  Let nR := IZR (Z.of_nat n).
+  Lemma nR_pos : 0 < nR.
+  Proof. unfold nR. apply IZR_lt. lia. Qed.
+
+  (** value of the k-th documented half-plane function, for an integer index *)
+  Definition hval (i : Z) : R :=
+    let th := 2 * PI * (IZR i + orient) / nR - PI / 2 in x * cos th + y * sin th.
+
+  Lemma hval_shift1 i : hval (i + Z.of_nat n) = hval i.
+  Proof.
+    unfold hval. cbv zeta. rewrite plus_IZR. fold nR. pose proof nR_pos.
+    replace (2 * PI * (IZR i + nR + orient) / nR - PI / 2)
+      with ((2 * PI * (IZR i + orient) / nR - PI / 2) + 2 * PI) by (field; lra).
+    now rewrite cos_plus, sin_plus, cos_2PI, sin_2PI, !Rmult_1_r, !Rmult_0_r, Rminus_0_r, Rplus_0_r.
+  Qed.
+  Lemma hval_shift_nat i (q : nat) : hval (i + Z.of_nat q * Z.of_nat n) = hval i.
+  Proof.
+    induction q as [|q IH]; [f_equal; lia|].
+    replace (i + Z.of_nat (S q) * Z.of_nat n)%Z with ((i + Z.of_nat q * Z.of_nat n) + Z.of_nat n)%Z by lia.
+    now rewrite hval_shift1.
+  Qed.
+  Lemma hval_shift i (q : Z) : hval (i + q * Z.of_nat n) = hval i.
+  Proof.
+    destruct (Z_le_gt_dec 0 q) as [Hq|Hq].
+    - rewrite <- (Z2Nat.id q Hq). apply hval_shift_nat.
+    - rewrite <- (hval_shift_nat (i + q * Z.of_nat n) (Z.to_nat (- q))).
+      f_equal. rewrite Z2Nat.id by lia. ring.
+  Qed.
+  Lemma hval_mod i : hval (i mod Z.of_nat n) = hval i.
+  Proof.
+    rewrite <- (hval_shift (i mod Z.of_nat n) (i / Z.of_nat n)). f_equal.
+    rewrite (Z.div_mod i (Z.of_nat n)) at 3 by lia. ring.
+  Qed.
+
+  (** the k-th plane of build(): angle (2 pi / n) (k + offset) *)
+  Lemma prism_theta_hval (k : nat) :
+    let th := prism_theta n orient k in
+    x * cos th + y * sin th
+    = hval (Z.of_nat k - Int_part ((IZR (Z.of_nat n) * 3 + 4 * orient) / 4)).
+  Proof.
+    cbv zeta. unfold prism_theta, prism_offset, fmod4, hval. rewrite npi_PI. numR. fold nR.
+    set (m := Int_part ((nR * 3 + 4 * orient) / 4)). cbv zeta. rewrite minus_IZR. pose proof nR_pos.
+    replace (2 * PI / nR * (IZR (Z.of_nat k) + (nR * 3 + 4 * orient - 4 * IZR m) / 4))
+      with ((2 * PI * (IZR (Z.of_nat k) - IZR m + orient) / nR - PI / 2) + 2 * PI) by (field; lra).
+    now rewrite cos_plus, sin_plus, cos_2PI, sin_2PI, !Rmult_1_r, !Rmult_0_r, Rminus_0_r, Rplus_0_r.
+  Qed.
+
+  Lemma prism_def_hval (k : nat) :
+    let th := prism_def_theta n orient k in
+    x * cos th + y * sin th = hval (Z.of_nat k).
+  Proof. cbv zeta. unfold prism_def_theta, hval. rewrite npi_PI. numR. fold nR. reflexivity. Qed.
+
+  (** both index sets enumerate all residues *)
+  Lemma shift_cover (m : Z) (P : R -> Prop) :
+    (forall k, (k < n)%nat -> P (hval (Z.of_nat k - m))) <-> (forall j, (j < n)%nat -> P (hval (Z.of_nat j))).
+  Proof.
+    split; intros Hall i Hi.
+    - (* j given: k = (j + m) mod n *)
+      set (k := Z.to_nat ((Z.of_nat i + m) mod Z.of_nat n)).
+      assert (Hk : (k < n)%nat).
+      { unfold k. pose proof (Z.mod_pos_bound (Z.of_nat i + m) (Z.of_nat n) ltac:(lia)). lia. }
+      specialize (Hall k Hk). rewrite <- hval_mod in Hall.
+      replace ((Z.of_nat k - m) mod Z.of_nat n)%Z with (Z.of_nat i mod Z.of_nat n)%Z in Hall.
+      + now rewrite hval_mod in Hall.
+      + unfold k. rewrite Z2Nat.id by (apply Z.mod_pos_bound; lia).
+        rewrite Zminus_mod_idemp_l. f_equal. ring.
+    - set (j := Z.to_nat ((Z.of_nat i - m) mod Z.of_nat n)).
+      assert (Hj : (j < n)%nat).
+      { unfold j. pose proof (Z.mod_pos_bound (Z.of_nat i - m) (Z.of_nat n) ltac:(lia)). lia. }
+      specialize (Hall j Hj). unfold j in Hall. rewrite Z2Nat.id in Hall by (apply Z.mod_pos_bound; lia).
+      now rewrite hval_mod in Hall.
+  Qed.
+End PrismProof.
+
+Lemma forallb_map {A B} (f : A -> B) (g : B -> bool) l :
+  forallb g (map f l) = forallb (fun x => g (f x)) l.
+Proof. induction l as [|x r IH]; cbn; [reflexivity|]. now rewrite IH. Qed.
+Lemma existsb_map {A B} (f : A -> B) (g : B -> bool) l :
+  existsb g (map f l) = existsb (fun x => g (f x)) l.
+Proof. induction l as [|x r IH]; cbn; [reflexivity|]. now rewrite IH. Qed.
+
+Lemma forallb_seq (f : nat -> bool) n :
+  forallb f (seq 0 n) = true <-> forall k, (k < n)%nat -> f k = true.
+Proof.
+  rewrite forallb_forall. split; intros Hx k Hk.
+  - apply Hx. apply in_seq. lia.
+  - apply Hx. apply in_seq in Hk. lia.
+Qed.
+
+Theorem prism_surfaces_iff_inside n a hh orient p : (0 < n)%nat ->
+  on_any (prism_surfaces n a hh orient) p = false ->
+  (all_hold (prism_surfaces n a hh orient) p = true <-> inside_prism n a hh orient p = true).
+Proof.
+  destruct p as [x y z]. intros Hn Hon. unfold prism_surfaces, inside_prism, planeZ in *.
+  rewrite on_any_app in Hon. destruct Hon as [Hz Hside]. senses_in Hz.
+  rewrite all_hold_app. senses. bools.
+  (* side faces *)
+  set (m := Int_part ((IZR (Z.of_nat n) * 3 + 4 * orient) / 4)).
+  assert (Hside' : forall k, (k < n)%nat -> hval n orient x y (Z.of_nat k - m) <> a).
+  { intros k Hk Heq. unfold on_any in Hside. rewrite existsb_map in Hside.
+    assert (Hin : In k (seq 0 n)) by (apply in_seq; lia).
+    pose proof (proj2 (Bool.not_true_iff_false _) Hside) as Hn'. apply Hn'.
+    apply existsb_exists. exists k. split; [exact Hin|]. cbn [snd]. apply on_surface_iff.
+    unfold surf_f. cbn [vx vy vz]. rewrite <- (prism_theta_hval n orient x y Hn k) in Heq. cbv zeta in Heq.
+    numR. lra. }
+  assert (Hall : all_hold (map (fun k => let th := prism_theta n orient k in
+                                         (BIn, SPlane (V3 (ncos th) (nsin th) n0) a)) (seq 0 n)) (V3 x y z) = true
+                 <-> forall k, (k < n)%nat -> hval n orient x y (Z.of_nat k - m) < a).
+  { unfold all_hold. rewrite forallb_map, forallb_seq. split; intros Hx k Hk; specialize (Hx k Hk).
+    - cbn [fst snd] in Hx. apply sense_in_iff in Hx. unfold surf_f in Hx. cbn [vx vy vz] in Hx.
+      rewrite <- (prism_theta_hval n orient x y Hn k). cbv zeta. numR. lra.
+    - cbn [fst snd]. apply sense_in_iff. unfold surf_f. cbn [vx vy vz].
+      rewrite <- (prism_theta_hval n orient x y Hn k) in Hx. cbv zeta in Hx. numR. lra. }
+  rewrite Hall. rewrite forallb_seq.
+  pose proof (shift_cover n orient x y Hn m (fun v => v < a)) as Hc1.
+  pose proof (shift_cover n orient x y Hn m (fun v => v <> a)) as Hc2.
+  unfold surf_f in Hz. cbn [vget vx vy vz] in *. 
+  split.
+  - intros [[Hz1 [Hz2 _]] Hk]. split; [vsimp; lra|].
+    intros k Hk'. apply Rleb_true. rewrite (prism_def_hval n orient x y k). cbv zeta.
+    apply Rlt_le. now apply (proj1 Hc1 Hk).
+  - intros [Hzz Hk]. split.
+    + destruct Hz as (Hz1 & Hz2 & _). vsimp. repeat split; lra.
+    + apply (proj2 Hc1). intros j Hj. specialize (Hk j Hj). apply Rleb_true in Hk.
+      rewrite (prism_def_hval n orient x y j) in Hk. cbv zeta in Hk.
+      pose proof (proj1 Hc2 Hside' j Hj). cbn beta in *. lra.
+Qed.
